@@ -54,7 +54,7 @@ class PathCtx:
 
     def feasible(self, extra):
         s = z3.Solver()
-        s.set("timeout", 3000)
+        s.set("timeout", 1200)
         for f in self.pc:
             s.add(f)
         s.add(extra)
